@@ -275,8 +275,10 @@ def comments_unit(ctx, src):
     u.function(src, HH, r'void strip_multiline_comments\(StrT& s, bool allow_unterminated = false\)',
                new_header='void strip_multiline_comments(vstr* s, bool allow_unterminated)', ret_zero='', body_prefix=' g_wo = 0; g_in = 0; ',
                rules=[SIZES[0], R(r'\bs\[([^\]]+)\]', r's->data[\1]', '+'), R(r'\bs\.resize\(([^;]*)\);', r"vstr_resize(s, \1, '\\0');"),
-                      R(r'for \(size_t z = 0; ([^;]*);\s*\) \{',
-                        r'for (size_t z = 0; \1; c8_cmt_check(s, z, write_offset, is_in_comment)) { CMT_SNAPSHOT(s, z, write_offset, is_in_comment)')],
+                      # the lock-step check runs after every iteration (after the loop's own increment expression, if it has one)
+                      R(r'for \(size_t z = 0; ([^;]*);\s*([^(){};]*?)\s*\) \{',
+                        lambda mo: 'for (size_t z = 0; %s; %sc8_cmt_check(s, z, write_offset, is_in_comment)) { CMT_SNAPSHOT(s, z, write_offset, is_in_comment)'
+                        % (mo.group(1), (mo.group(2) + ', ') if mo.group(2) else ''))],
                nloops=1, loops={1: COMMENTS_LOOP})
     return u
 
